@@ -99,6 +99,11 @@ META = {
              '--auto-delayed-regex), --continue, runner serial | thread k=1..3 x policy | process k=2; 22% of the serial/thread '
              'cases run the SAME namespace object 2-3 times in one process (same / other selection), monitors and '
              'model per run; '
+             'creator variants (wave 4): the creator yields dicts | RETURNS one dict | a Task object | None | raises; '
+             'bound-method creator; @task_params (default / value on the command line); executed = plain task | static '
+             'group | sub-task | delayed task | unknown task; created tasks with uptodate callables (modelled), setup / '
+             'calc_dep / getargs from a sub-task of the delayed group (outside M1+: monitors-only, counted as '
+             '`monitors-only(outside M1+):…`); '
              'non-trivial = a creator was evaluated; distinct = distinct rendered case + schedule'),
     'assumptions': ['up-to-date status is produced by uptodate=[True] on a fresh DB with existing targets',
                     'process-mode runs are sampled'],
@@ -125,8 +130,47 @@ def yield_name(y, T):
     return '%s:%s' % (y['basename'], y['sub'])
 
 
+def oracle_utd(y):
+    """is the created task up-to-date on a fresh DB: `uptodate=[True]` / an uptodate callable returning True, and no
+    file_dep (whose state was never saved)"""
+    if y.get('utd_fn') is not None:
+        # getargs adds a result_dep on its source (never up-to-date on a fresh DB) -- unless the source is also listed
+        # in `setup` (Task._init_getargs: `if parts[0] not in self.setup_tasks`)
+        forced = any(src not in (y.get('setup') or []) for src in (y.get('getargs') or {}).values())
+        return bool(y['utd_fn']) and not y.get('file_dep') and not forced
+    return bool(y['utd'])
+
+
+def ref_name(cr, T, r):
+    """a reference inside a yield: a static task name (str) or {'ref': j} = the j-th yield of the same creator"""
+    return yield_name(cr['yields'][r['ref']], T) if isinstance(r, dict) else r
+
+
+def extra_deps(cr, T, y):
+    """dependencies a yield has through attributes the Lean run model M1+ does not cover (setup, calc_dep and what the
+    calc task delivers, the source of a getargs): used by the monitors' dependency table only"""
+    out = [ref_name(cr, T, r) for r in (y.get('setup') or [])]
+    for cd in y.get('calc_dep') or []:
+        out.append(cd['task'])
+        out += list(cd['delivers'])
+    for arg, src in sorted((y.get('getargs') or {}).items()):
+        out.append(ref_name(cr, T, src))
+    return out
+
+
 def make_tasks(cr, T):
-    """what generate_tasks(T, creator()) returns: list of dicts name/deps/fileDep/targets/group (OrderedDict order)"""
+    """what generate_tasks(T, creator()) returns: list of dicts name/deps/fileDep/targets/group (OrderedDict order).
+    `ret`: the creator is a generator of dicts ('gen'), returns ONE dict ('dict': named by its basename, else by T),
+    returns a Task object ('task'), returns None ('none': nothing is created) or raises ('raises')."""
+    ret = cr.get('ret', 'gen')
+    if ret in ('none', 'raises'):
+        return []
+    if ret in ('dict', 'task') and cr['yields']:
+        y = cr['yields'][0]
+        name = y['basename'] if y.get('basename') else T
+        return [{'name': name, 'deps': list(y['task_dep']), 'fileDep': list(y.get('file_dep', [])),
+                 'targets': list(y['targets']), 'group': False, 'utd': oracle_utd(y), 'fails': y['fails'],
+                 'extra': extra_deps(cr, T, y)}]
     out = {}
     order = []
     for y in cr['yields']:
@@ -134,16 +178,30 @@ def make_tasks(cr, T):
         if y['kind'] in ('sub', 'basesub'):
             g = T if y['kind'] == 'sub' else y['basename']
             if g not in out:
-                out[g] = {'name': g, 'deps': [], 'fileDep': [], 'targets': [], 'group': True}
+                out[g] = {'name': g, 'deps': [], 'fileDep': [], 'targets': [], 'group': True, 'extra': []}
                 order.append(g)
             out[g]['deps'].append(name)
         if name not in out:
             order.append(name)
         out[name] = {'name': name, 'deps': list(y['task_dep']), 'fileDep': list(y.get('file_dep', [])),
-                     'targets': list(y['targets']), 'group': False, 'utd': y['utd'], 'fails': y['fails']}
+                     'targets': list(y['targets']), 'group': False, 'utd': oracle_utd(y), 'fails': y['fails'],
+                     'extra': extra_deps(cr, T, y)}
     if not order:
-        return [{'name': T, 'deps': [], 'fileDep': [], 'targets': [], 'group': True}]
+        return [{'name': T, 'deps': [], 'fileDep': [], 'targets': [], 'group': True, 'extra': []}]
     return [out[n] for n in order]
+
+
+def unmodelled(case):
+    """shapes outside the Lean model M1+ (task_dep edges only): the case runs monitors-only, and is counted"""
+    why = set()
+    for cr in case['creators']:
+        if cr.get('ret') == 'raises':
+            why.add('creator-raises')
+        for y in cr['yields']:
+            for k in ('setup', 'calc_dep', 'getargs'):
+                if y.get(k):
+                    why.add('created-task-with-' + k)
+    return sorted(why)
 
 
 def placeholders(cr):
@@ -163,6 +221,9 @@ def analyse(case):
     for t in case['static']:
         nid(t['name'])
     loaders = []           # (placeholder name, creator index)
+    for cr in case['creators']:
+        if cr['executed']:
+            nid(cr['executed'])
     for c, cr in enumerate(case['creators']):
         for p in placeholders(cr):
             nid(p)
@@ -173,6 +234,7 @@ def analyse(case):
         nid(w)
         nid(w.split(':', 1)[0])
     static_names = set(t['name'] for t in case['static'])
+    static_groups = set(t['name'] for t in case['static'] if t.get('kind') == 'group')
     static_targets = {}
     for t in case['static']:
         for f in t['targets']:
@@ -185,7 +247,7 @@ def analyse(case):
         if x not in cand:
             cand.append(x)
     make = []
-    has_action = set(static_names)
+    has_action = set(static_names) - static_groups
     groups = set()
     utd, fails = set(), set()
     absent = set(case.get('absent') or [])      # files not pre-created: a task that builds one is not up-to-date
@@ -196,12 +258,12 @@ def analyse(case):
             fails.add(t['name'])
     for c, cr in enumerate(case['creators']):
         for T in cand:
-            if T.split(':', 1)[0] not in placeholders(cr):
-                continue        # `to_load` of a loader object of creator c is one of its placeholders or a sub-task word of one
+            if T not in placeholders(cr):
+                continue        # `to_load` of a loader object of creator c is one of its placeholders (since 46c8565 always)
             lst = make_tasks(cr, T)
             for d in lst:
                 nid(d['name'])
-                for x in d['deps'] + d['fileDep'] + d['targets']:
+                for x in d['deps'] + d['fileDep'] + d['targets'] + d.get('extra', []):
                     nid(x)
                 if not d['group']:
                     if d.get('utd') and not (absent & set(d['targets'])):
@@ -248,13 +310,13 @@ def load_order(case):
         if item in ('@static', '@late'):
             for t in case['static']:
                 if bool(t.get('late')) == (item == '@late'):
-                    out.append((t['name'], list(t['task_dep']), None, list(t['targets'])))
+                    out.append((t['name'], list(t['task_dep']), None, list(t['targets']), t.get('kind') != 'group'))
         else:
             c = [i for i, cr in enumerate(case['creators']) if cr['fname'] == item][0]
             cr = case['creators'][c]
             for p in placeholders(cr):
                 l = an_loaders.index((p, c))
-                out.append((p, [cr['executed']] if cr['executed'] else [], l, []))
+                out.append((p, [cr['executed']] if cr['executed'] else [], l, [], False))
     return out
 
 
@@ -262,14 +324,14 @@ def to_request(case, obs, an=None, op='check'):
     an = an or analyse(case)
     ix = an['idx']
     tasks = [[ix[n], {'deps': [ix[d] for d in deps], 'loader': l, 'fileDep': [], 'targets': [ix[f] for f in tg],
-                      'act': l is None}]
-             for n, deps, l, tg in load_order(case)]
+                      'act': act}]
+             for n, deps, l, tg, act in load_order(case)]
     req = {'model': 'delayed', 'op': op, 'tasks': tasks,
            'targets': [[ix[f], ix[t]] for f, t in an['static_targets'].items()],
            'loaders': [{'creator': c, 'exec': (ix[case['creators'][c]['executed']]
                                                if case['creators'][c]['executed'] else None),
                         'regex': bool(case['creators'][c]['regex'])} for p, c in an['loaders']],
-           'make': [[c, ix[T], [{'name': ix[d['name']], 'deps': [ix[x] for x in d['deps']],
+           'make': [[c, ix[T], [{'name': ix[d['name']], 'deps': [ix[x] for x in d['deps'] + d.get('extra', [])],
                                  'fileDep': [ix[x] for x in d['fileDep']],
                                  'targets': [ix[x] for x in d['targets']], 'act': not d['group']}
                                 for d in lst]] for c, T, lst in an['make']],
@@ -279,7 +341,9 @@ def to_request(case, obs, an=None, op='check'):
                    if case['sel'] is not None else None),
            'serial': case['runner'] == 'serial', 'cont': bool(case.get('cont')),
            'utd': [ix[n] for n in an['utd']], 'fails': [ix[n] for n in an['fails']],
-           'noAct': [ix[n] for n in an['noAct']], 'budget': 150000}
+           'noAct': [ix[n] for n in an['noAct']], 'budget': 150000,
+           'dangling': [cr['executed'] for cr in case['creators']
+                        if cr['executed'] and cr['executed'] not in [n for n, _, _, _, _ in load_order(case)]] != []}
     if obs is not None:
         req['obs'] = {'events': obs['events'], 'err': obs['err'], 'exit': obs['exit'] if obs['exit'] is not None else 99}
     return req
@@ -334,8 +398,12 @@ def build_namespace(case, rec):
     def static_gen(late):
         def gen():
             for t in case['static']:
-                if bool(t.get('late')) == late:
-                    d = {'actions': [NamedAct(list(t['targets']), t['fails'])], 'basename': t['name']}
+                if bool(t.get('late')) == late and t.get('kind') != 'group':
+                    d = {'actions': [NamedAct(list(t['targets']), t['fails'], ret=t.get('delivers'))]}
+                    if t.get('kind') == 'sub':          # sub-task of a static group (the group task is made by doit)
+                        d['basename'], d['name'] = t['name'].split(':', 1)
+                    else:
+                        d['basename'] = t['name']
                     if t['task_dep']:
                         d['task_dep'] = list(t['task_dep'])
                     if t['targets']:
@@ -346,24 +414,58 @@ def build_namespace(case, rec):
         return gen
 
     def delayed(c, cr):
-        def creator():
-            runlib._REC.ev(['creator', c])      # the recorder of the run in progress (a namespace may be run again)
-            for y in cr['yields']:
-                # the task's id is only known once its name is: the action looks it up by the name doit gave it
-                d = {'actions': [NamedAct(list(y['targets']), y['fails'])]}
-                if y['task_dep']:
-                    d['task_dep'] = list(y['task_dep'])
-                if y['targets']:
-                    d['targets'] = list(y['targets'])
-                if y.get('file_dep'):
-                    d['file_dep'] = list(y['file_dep'])
-                if y['utd']:
-                    d['uptodate'] = [True]
-                if y['kind'] in ('sub', 'basesub'):
-                    d['name'] = y['sub']
-                if y['kind'] in ('base', 'basesub'):
+        ret = cr.get('ret', 'gen')
+
+        def item(y):
+            # the task's id is only known once its name is: the action looks it up by the name doit gave it
+            d = {'actions': [NamedAct(list(y['targets']), y['fails'], want_args=bool(y.get('getargs')))]}
+            if y['task_dep']:
+                d['task_dep'] = list(y['task_dep'])
+            if y['targets']:
+                d['targets'] = list(y['targets'])
+            if y.get('file_dep'):
+                d['file_dep'] = list(y['file_dep'])
+            if y.get('utd_fn') is not None:
+                d['uptodate'] = [UtdFn(y['utd_fn'])]       # an uptodate callable instead of the constant
+            elif y['utd']:
+                d['uptodate'] = [True]
+            if y.get('setup'):
+                d['setup'] = [ref_name(cr, cr['fname'], r) for r in y['setup']]
+            if y.get('calc_dep'):
+                d['calc_dep'] = [cd['task'] for cd in y['calc_dep']]
+            if y.get('getargs'):
+                d['getargs'] = {a: (ref_name(cr, cr['fname'], src), 'v') for a, src in y['getargs'].items()}
+            return d
+
+        def creator(**kw):
+            rec_ = runlib._REC                   # the recorder of the run in progress (a namespace may be run again)
+            rec_.ev(['creator', c])
+            if cr.get('params'):
+                rec_.ev(['creator_kw', c, sorted(kw.items())])
+            if ret == 'raises':
+                raise RuntimeError('creator %s raises' % cr['fname'])
+            if ret == 'none':
+                return None
+            if ret in ('dict', 'task') and cr['yields']:
+                y = cr['yields'][0]
+                d = item(y)
+                if y.get('basename'):
                     d['basename'] = y['basename']
-                yield d
+                if ret == 'dict':
+                    return d
+                from doit.task import Task
+                name = d.pop('basename', None) or cr['fname']
+                return Task(name, d.pop('actions'), **d)
+
+            def items():
+                for y in cr['yields']:
+                    d = item(y)
+                    if y['kind'] in ('sub', 'basesub'):
+                        d['name'] = y['sub']
+                    if y['kind'] in ('base', 'basesub'):
+                        d['basename'] = y['basename']
+                    yield d
+            return items()
         kw = {}
         if cr['executed']:
             kw['executed'] = cr['executed']
@@ -374,16 +476,19 @@ def build_namespace(case, rec):
         return creator, kw
 
     bodies = {}
-    for item in case['order']:
-        if item == '@static':
+    meta = {}
+    for item_ in case['order']:
+        if item_ == '@static':
             bodies['task_static0'] = (static_gen(False), None)
-        elif item == '@late':
+        elif item_ == '@late':
             bodies['task_static1'] = (static_gen(True), None)
         else:
-            c = [i for i, cr in enumerate(case['creators']) if cr['fname'] == item][0]
-            bodies['task_' + item] = delayed(c, case['creators'][c])
+            c = [i for i, cr in enumerate(case['creators']) if cr['fname'] == item_][0]
+            bodies['task_' + item_] = delayed(c, case['creators'][c])
+            meta['task_' + item_] = case['creators'][c]
     # load_tasks orders the creators by source line: give every function its own line in a synthetic source file
     import linecache
+    from doit.loader import task_params
     global _SRC_COUNTER
     _SRC_COUNTER += 1
     fname = '/c15gen/case%d_%d.py' % (os.getpid(), _SRC_COUNTER)
@@ -391,12 +496,25 @@ def build_namespace(case, rec):
     env = {}
     for i, (key, (body, kw)) in enumerate(bodies.items()):
         env['_body_%d' % i] = body
-        src += 'def %s():\n    return _body_%d()\n\n' % (key, i)
+        if kw is None:
+            src += 'def %s():\n    return _body_%d()\n\n' % (key, i)
+        elif meta[key].get('bound'):
+            # the creator is a bound method of an object living in the namespace
+            src += 'class K_%s(object):\n    def %s(self, **kw):\n        return _body_%d(**kw)\n' % (key, key, i)
+        else:
+            src += 'def %s(**kw):\n    return _body_%d(**kw)\n\n' % (key, i)
     linecache.cache[fname] = (len(src), None, src.splitlines(True), fname)
     exec(compile(src, fname, 'exec'), env)
     for i, (key, (body, kw)) in enumerate(bodies.items()):
-        f = env[key]
-        ns[key] = create_after(**kw)(f) if kw is not None else f
+        if kw is None:
+            ns[key] = env[key]
+            continue
+        cr = meta[key]
+        f = env['K_' + key].__dict__[key] if cr.get('bound') else env[key]
+        if cr.get('params'):
+            f = task_params([{'name': 'p', 'long': 'p', 'default': cr['params']['default']}])(f)
+        f = create_after(**kw)(f)
+        ns[key] = getattr(env['K_' + key](), key) if cr.get('bound') else f
     ns['DOIT_CONFIG'] = {'dep_file': 'db.json', 'backend': 'json', 'verbosity': 0, 'reporter': runlib.RecReporter}
     if shared is not None:
         shared['ns'] = ns
@@ -404,31 +522,49 @@ def build_namespace(case, rec):
 
 
 class NamedAct(object):
-    """action of a created task: reports under the name doit gave the task (`task` keyword argument)"""
+    """action of a generated task: reports under the name doit gave the task (`task` keyword argument); picklable
+    (delayed-created tasks are pickled whole by MRunner).  A successful action returns a dict: `{'v': <task name>}`
+    (what getargs consumers read) plus `ret` (a calc_dep task delivers its dependencies this way)."""
 
-    def __init__(self, targets, fails):
-        self.targets, self.fails = targets, fails
+    def __init__(self, targets, fails, ret=None, want_args=False):
+        self.targets, self.fails, self.ret, self.want_args = targets, fails, ret, want_args
         self.__name__ = 'named_act'
 
-    def __call__(self, task):
+    def __call__(self, task, **kw):
         rec = runlib._REC
         n = rec.tid(task.name)
         w = rec.who()
         rec.ev(['start', n, w])
+        if self.want_args:
+            rec.ev(['getarg', n, sorted(kw.items())])
         rec.checkpoint(n)
         for f in self.targets:
             with open(f, 'w') as fh:
                 fh.write('made\n')
         rec.ev(['end', n, w])
-        return not self.fails
+        if self.fails:
+            return False
+        val = {'v': task.name}
+        val.update(self.ret or {})
+        return val
+
+
+class UtdFn(object):
+    """an `uptodate` callable (picklable)"""
+
+    def __init__(self, val):
+        self.val = val
+
+    def __call__(self, task, values):
+        return self.val
 
 
 def _prepare_fs(case):
     an = case['_an']
     files = set(an['static_targets'])
-    for c, T, lst in an['make']:
-        for d in lst:
-            files.update(d['targets'])
+    for cr in case['creators']:
+        for y in cr['yields']:
+            files.update(y['targets'])      # also of items a creator does not deliver (returns None / one dict / raises)
     for f in files:
         if f in (case.get('absent') or []):
             continue        # a selected target that does not exist yet (fresh tree / after `doit clean`)
@@ -445,7 +581,12 @@ def argv_of(case):
     if case['runner'] != 'serial':
         argv += ['-n', str(case['nproc']), '-P', case['runner']]
     if case.get('sel') is not None:
-        argv += list(case['sel'])
+        cmdp = {cr['fname']: cr['params']['cmd'] for cr in case['creators']
+                if cr.get('params') and cr['params'].get('cmd') is not None and not cr['creates']}
+        for w in case['sel']:
+            argv.append(w)
+            if w in cmdp and case['sel'].count(w) == 1:
+                argv += ['--p', cmdp[w]]        # option of the task-creator (@task_params), given after its task name
     return argv
 
 
@@ -509,7 +650,9 @@ def run_impl(case, shared=None):
         # worker thread had sys.stderr swapped (open finding C17 stdout-overlap-threads).  Error class unknown.
         errc = 'exit3'
     obs = {'events': ev, 'err': errc, 'exit': o['exit'], 'unknown': unknown, 'stderr': o.get('stderr', '')[-300:],
-           'raw_err': err}
+           'raw_err': err,
+           'getarg': [[e[1], e[2]] for e in o.get('raw', []) if e[0] == 'getarg'],
+           'creator_kw': [[e[1], e[2]] for e in o.get('raw', []) if e[0] == 'creator_kw']}
     if 'schedule' in o:
         obs['schedule'] = o['schedule']
     return obs, an
@@ -568,6 +711,18 @@ def gen_case(rng, runner=None, knobs=None):
                        'targets': ['t_s%d' % i] if rng.random() < k.get('p_static_target', 0.4) else [],
                        'utd': rng.random() < 0.3,
                        'fails': rng.random() < k.get('p_fail', 0.08), 'late': False})
+    plain_static = [t['name'] for t in static]
+    if rng.random() < k.get('p_static_group', 0.3):
+        # a statically defined group with two sub-tasks: `executed=` may name the group or one sub-task
+        static.append({'name': 'grp', 'kind': 'group', 'task_dep': ['grp:a', 'grp:b'], 'targets': [], 'utd': False,
+                       'fails': False, 'late': False})
+        for sub in ('a', 'b'):
+            static.append({'name': 'grp:' + sub, 'kind': 'sub', 'task_dep': [], 'targets': [],
+                           'utd': rng.random() < 0.2, 'fails': rng.random() < 0.04, 'late': False})
+    if rng.random() < k.get('p_calc', 0.15):
+        # a task whose result delivers dependencies (calc_dep of a created task)
+        static.append({'name': 'calc0', 'kind': 'calc', 'task_dep': [], 'targets': [], 'utd': False, 'fails': False,
+                       'late': False, 'delivers': {'task_dep': [rng.choice(plain_static)]}})
     n_cre = rng.choice([1, 1, 2, 2, 3])
     creators = []
     created_so_far = []     # names a later creator may use as `executed`
@@ -577,9 +732,11 @@ def gen_case(rng, runner=None, knobs=None):
         executed = None
         r = rng.random()
         if r < 0.65:
-            executed = rng.choice(static)['name']
+            executed = rng.choice(static)['name']       # a plain task, a group (`grp`) or a sub-task (`grp:a`)
         elif r < 0.8 and created_so_far:
             executed = rng.choice(created_so_far)
+        elif 0.8 <= r < 0.83:
+            executed = 'nosuch'                         # a task that does not exist: InvalidTask when the command is set up
         regex = None
         if rng.random() < k.get('p_regex', 0.5):
             regex = rng.choice(['o%d_.*' % c, 'o%d_.*' % c, 'o.*', 'o%d_a' % c])
@@ -630,7 +787,38 @@ def gen_case(rng, runner=None, knobs=None):
                     y['file_dep'] = fd
                     y['utd'] = False
             y['fails'] = rng.random() < k.get('p_fail', 0.08)
+        # attributes of created tasks: uptodate callable (modelled through the up-to-date oracle); setup, calc_dep,
+        # getargs (outside M1+: such cases run monitors-only)
+        for j, y in enumerate(yields):
+            if rng.random() < k.get('p_utd_fn', 0.15):
+                y['utd_fn'] = rng.random() < 0.6
+                y['utd'] = bool(y['utd_fn']) and not y['file_dep']
+            if rng.random() < k.get('p_setup', 0.07):
+                y['setup'] = [rng.choice([{'ref': i} for i in range(j)] + plain_static)]
+            if rng.random() < k.get('p_calc_dep', 0.3) and any(t.get('kind') == 'calc' for t in static):
+                t = [t for t in static if t.get('kind') == 'calc'][0]
+                y['calc_dep'] = [{'task': t['name'], 'delivers': list(t['delivers']['task_dep'])}]
+            if j and rng.random() < k.get('p_getargs', 0.1):
+                # a value computed by an earlier task of the same creator -- a sub-task of the delayed group
+                src = rng.randrange(j)
+                y['getargs'] = {'val': {'ref': src}}
+                y['utd'] = False
+                yields[src]['utd'] = False
+                yields[src].pop('utd_fn', None)
         cr = {'fname': fname, 'executed': executed, 'creates': creates, 'regex': regex, 'yields': yields}
+        r = rng.random()
+        if yields and r < k.get('p_ret', 0.22):
+            cr['ret'] = rng.choice(['dict', 'task'])    # the creator RETURNS one dict / one Task object (its first item)
+            for key in ('setup', 'getargs'):
+                yields[0].pop(key, None)
+        elif not creates and r < k.get('p_ret', 0.22) + 0.05:
+            cr['ret'] = 'none'                          # the creator returns None: nothing is created
+        elif r < k.get('p_ret', 0.22) + 0.09:
+            cr['ret'] = 'raises'                        # the creator raises
+        if rng.random() < k.get('p_bound', 0.15):
+            cr['bound'] = True                          # the creator is a bound method
+        if rng.random() < k.get('p_params', 0.15):
+            cr['params'] = {'default': 'd%d' % c, 'cmd': rng.choice([None, 'v%d' % c])}     # @task_params
         creators.append(cr)
         created_so_far += placeholders(cr)
     if len(creators) >= 2 and rng.random() < k.get('p_shared_regex', 0.2):
@@ -695,17 +883,25 @@ def render(case):
         if item in ('@static', '@late'):
             for t in case['static']:
                 if bool(t.get('late')) == (item == '@late'):
-                    lines.append('task %s: task_dep=%s%s%s%s' % (t['name'], t['task_dep'],
+                    lines.append('task %s%s: task_dep=%s%s%s%s' % (t['name'],
+                                                                    ' (%s%s)' % (t['kind'], ' delivers %s' % t['delivers'] if t.get('delivers') else '')
+                                                                    if t.get('kind') else '', t['task_dep'],
                                                                   ' targets=%s' % t['targets'] if t['targets'] else '',
                                                                   ' utd' if t['utd'] else '',
                                                                   ' FAILS' if t['fails'] else ''))
         else:
             cr = [c for c in case['creators'] if c['fname'] == item][0]
-            lines.append('@create_after(executed=%r, creates=%r, target_regex=%r) def task_%s: yields %s' % (
-                cr['executed'], cr['creates'], cr['regex'], cr['fname'],
+            lines.append('@create_after(executed=%r, creates=%r, target_regex=%r)%s%s def task_%s: %s %s' % (
+                cr['executed'], cr['creates'], cr['regex'],
+                ' @task_params(p: default=%r, command line=%r)' % (cr['params']['default'], cr['params'].get('cmd'))
+                if cr.get('params') else '', ' bound-method' if cr.get('bound') else '', cr['fname'],
+                {'gen': 'yields', 'dict': 'RETURNS the dict of its first item:', 'task': 'RETURNS a Task object of its first item:',
+                 'none': 'RETURNS None; (would yield)', 'raises': 'RAISES; (would yield)'}[cr.get('ret', 'gen')],
                 ['%s%s deps=%s targets=%s%s%s%s' % (y.get('basename') or '', (':' + y['sub']) if y.get('sub') else '',
                                                      y['task_dep'], y['targets'],
-                                                     ' file_dep=%s' % y['file_dep'] if y.get('file_dep') else '',
+                                                     (' file_dep=%s' % y['file_dep'] if y.get('file_dep') else '') +
+                                                     ''.join(' %s=%s' % (kk, y[kk]) for kk in ('setup', 'calc_dep', 'getargs', 'utd_fn')
+                                                             if y.get(kk) is not None and y.get(kk) != []),
                                                      ' utd' if y['utd'] else '',
                                                      ' FAILS' if y['fails'] else '') for y in cr['yields']]))
     if case.get('absent'):
@@ -766,7 +962,9 @@ SIGNATURES = {}     # F-C15a (subtask-then-regex-target) and F-C15b (creates-not
 
 
 def judge_one(case, obs, ans):
-    """-> (failed monitors, divergence text|None)"""
+    """-> (failed monitors, divergence text|None); for a multi-run case obs/ans belong to run obs['run']"""
+    if case.get('runs'):
+        case = run_case(case, obs.get('run', 0))
     failed = []
     if 'error' in ans:
         return failed, 'driver error: %s' % ans['error']
@@ -776,9 +974,39 @@ def judge_one(case, obs, ans):
                           ((': ' + ans['prop'].get('evaluated_why', '')) if k == 'evaluated' else ''))
     if obs['unknown']:
         failed.append('target: a task outside every creator\'s declared output was reported: %s' % obs['unknown'][:4])
-    if obs['err'] in ('crash', 'deadlock'):
+    evaluated = set(e[1] for e in obs['events'] if e[0] == 'creator')
+    raised = [c for c, cr in enumerate(case['creators']) if cr.get('ret') == 'raises' and c in evaluated]
+    if raised:
+        # a creator that raises: the exception must end the run as an error (exit 3), not be swallowed
+        if obs['exit'] != 3 or obs['err'] not in ('crash', 'exit3'):
+            failed.append('raises: creator %s raised but the run ended with exit=%s err=%s' % (raised, obs['exit'], obs['err']))
+    elif obs['err'] in ('crash', 'deadlock'):
         failed.append('crash: doit ended with %s' % obs.get('raw_err'))
+    # values handed to actions through getargs (item 21: source = a sub-task of the delayed group) and to creators
+    # through @task_params
+    an = None
+    for n, kw in obs.get('getarg') or []:
+        an = an or analyse(case)
+        want = None
+        for c, cr in enumerate(case['creators']):
+            for T in placeholders(cr):
+                for y in cr['yields']:
+                    if y.get('getargs') and isinstance(n, int) and an['names'][n] == (
+                            (y.get('basename') or T) if cr.get('ret') in ('dict', 'task') else yield_name(y, T)):
+                        want = sorted((a, ref_name(cr, T, src)) for a, src in y['getargs'].items())
+        if want is not None and [list(x) for x in kw] != [list(x) for x in want]:
+            failed.append('getargs: action of %s received %s, expected %s' % (an['names'][n], kw, want))
+    for c, kw in obs.get('creator_kw') or []:
+        cr = case['creators'][c]
+        if cr.get('params'):
+            cmd = cr['params'].get('cmd')
+            on_cmd = cmd is not None and not cr['creates'] and (case.get('sel') or []).count(cr['fname']) == 1
+            want = [['p', cmd if on_cmd else cr['params']['default']]]
+            if [list(x) for x in kw] != want:
+                failed.append('params: creator %s was called with %s, expected %s' % (cr['fname'], kw, want))
     div = None
+    if unmodelled(case) and (raised or any(w != 'creator-raises' for w in unmodelled(case))):
+        return failed, None         # outside M1+: monitors only (counted by count_case)
     if not ans.get('accept'):
         if ans.get('exhausted'):
             div = None     # search budget exhausted: counted, not a divergence
@@ -913,8 +1141,20 @@ def _variants(case):
         for j in range(len(case['creators'][i]['yields'])):
             c = copy.deepcopy(case)
             y = c['creators'][i]['yields'].pop(j)
+            for y2 in c['creators'][i]['yields']:
+                if y2.get('setup'):
+                    y2['setup'] = [({'ref': r['ref'] - 1} if r['ref'] > j else r) if isinstance(r, dict) else r
+                                   for r in y2['setup'] if not (isinstance(r, dict) and r['ref'] == j)]
+                if y2.get('getargs'):
+                    y2['getargs'] = {a: ({'ref': r['ref'] - 1} if r['ref'] > j else r) for a, r in y2['getargs'].items()
+                                     if r['ref'] != j}
             yield c
         for j, y in enumerate(case['creators'][i]['yields']):
+            for key in ('setup', 'calc_dep', 'getargs', 'utd_fn'):
+                if y.get(key) is not None and y.get(key) != []:
+                    c = copy.deepcopy(case)
+                    del c['creators'][i]['yields'][j][key]
+                    yield c
             for key in ('task_dep', 'targets', 'file_dep'):
                 if y.get(key):
                     c = copy.deepcopy(case)
@@ -929,6 +1169,11 @@ def _variants(case):
             c = copy.deepcopy(case)
             c['creators'][i]['regex'] = None
             yield c
+        for key in ('ret', 'bound', 'params'):
+            if case['creators'][i].get(key):
+                c = copy.deepcopy(case)
+                del c['creators'][i][key]
+                yield c
     for i, t in enumerate(case['static']):
         for d in t['task_dep']:
             c = copy.deepcopy(case)
@@ -1048,6 +1293,28 @@ def count_case(st, case, obs, ans):
             for f in y.get('file_dep') or []:
                 st.count('created-file_dep:%s' % ('static-target' if f in st_t else 'same-creator' if f in own
                                                  else 'other-creator'))
+    for cr in case['creators']:
+        st.count('creator-returns:%s' % cr.get('ret', 'gen'))
+        if cr.get('bound'):
+            st.count('creator:bound-method')
+        if cr.get('params'):
+            st.count('creator:task_params%s' % ('+command-line-value' if cr['params'].get('cmd') else ''))
+        ex = cr['executed']
+        kinds = {t['name']: t.get('kind', 'plain') for t in case['static']}
+        st.count('executed=%s' % ('none' if not ex else 'unknown-task' if ex == 'nosuch' else
+                                  'static-' + kinds[ex] if ex in kinds else 'delayed-task'))
+        for y in cr['yields']:
+            for kk in ('setup', 'calc_dep', 'getargs'):
+                if y.get(kk):
+                    st.count('created-task:%s' % kk)
+            if y.get('utd_fn') is not None:
+                st.count('created-task:uptodate-callable=%s' % y['utd_fn'])
+    for why in unmodelled(case):
+        st.count('monitors-only(outside M1+):%s' % why)
+    if obs.get('getarg'):
+        st.count('getargs-values-checked', len(obs['getarg']))
+    if obs.get('creator_kw'):
+        st.count('creator-kwargs-checked', len(obs['creator_kw']))
     if case.get('absent'):
         st.count('selected-target-file-absent')
     if case['sel']:
